@@ -1,21 +1,2 @@
 #!/bin/bash
-# C14: scheduler-based check (a go test binary because testing/synctest needs *testing.T)
-set -u
-cd /verif
-. bin/env.sh
-ID=C14; PKG=./checks/c14
-tier=quick; replay=""
-while [ $# -gt 0 ]; do
-  case "$1" in
-    quick|thorough) tier="$1"; shift;;
-    --replay) replay="$2"; shift 2;;
-    *) shift;;
-  esac
-done
-mkdir -p .build
-if ! go test -c -tags verif -o .build/$ID.test $PKG 2>.build/$ID.buildlog; then
-  cat .build/$ID.buildlog >&2
-  echo "HARNESS-ERROR: build of $ID against /repo's working tree failed" >&2
-  exit 2
-fi
-VERIF_TIER=$tier VERIF_REPLAY=$replay exec .build/$ID.test -test.run '^TestVerif$' -test.timeout 0
+exec /verif/bin/schedcheck.sh C14 ./checks/c14 0 "$@"
